@@ -58,7 +58,7 @@ def main_explore(pid, tier, seed, m, mutation_only=False, extra_oracle=None):
     nschemas, ndocs, nrandom = (fw.scale(10), 14, 6) if tier == "quick" else (fw.scale(60), 40, 25)
     t0 = time.time()
     for si in range(nschemas):
-        sg = SchemaGen(rng, with_mutation=True if mutation_only else None)
+        sg = SchemaGen(rng, with_mutation=("shared" if si % 5 == 3 else True) if mutation_only else None)
         renv = sg.gen_env(adv=0.05, fail=0.25)
         # more nested explicit resolvers so that several gates are in flight
         for o in sg.objs:
